@@ -6,7 +6,7 @@ patch="$1"; prop="$2"; tier="${3:-quick}"
 dir=$(mktemp -d /var/tmp/fjmut.XXXXXX)
 trap 'rm -rf "$dir"' EXIT
 cp -r /repo/flowjax "$dir/flowjax"
-( cd "$dir" && patch -p1 -s < "$patch" ) || { echo "PATCH-FAILED $patch"; exit 3; }
+( cd "$dir" && patch -p1 -s --no-backup-if-mismatch < "$patch" ) || { echo "PATCH-FAILED $patch"; exit 3; }
 out=$(cd /verif && VERIF_REPO="$dir" ./check "$prop" "$tier" 2>&1); rc=$?
 echo "$out" | grep -E "VIOLATION|mechanism=|INCONCLUSIVE|^\[" | head -8
 case $rc in 1) echo "CAUGHT $prop $(basename $patch)";; 0) echo "MISSED $prop $(basename $patch)";; *) echo "INCONCLUSIVE($rc) $prop $(basename $patch)";; esac
